@@ -3,39 +3,57 @@ import itertools
 ID = 'C15'
 GROUPS = ['common']
 CXX_SOURCES = []
+WRAP = ['writev']      # the kernel side of ConnectedDescriptor::Send(IOQueue*) is scripted
 
 RULE = ('operation histories on 1-3 IOQueues and 0-2 IOStacks sharing one MemoryBlockPool with block size 1-8: '
         'all histories of <= 3 ops over a 34-letter boundary alphabet (write / read lengths 0,1,bs,bs+1; quick bs=2, '
         'thorough bs=1..3 plus a 1/11 sample of depth 4) + random histories of up to 40 ops whose lengths are drawn from '
         '{0,1,bs-1,bs,bs+1,2bs,2bs+1,3bs+1} for writes and block size / current buffer size -1,+0,+1 for reads and pops + '
         'scenario families for block reuse / string reads / zero-length writes / stack-to-queue moves; '
-        'every observable compared after every op; non-trivial = at least one byte written and one '
-        'byte read/peeked back; distinct = distinct model output line')
+        'extended histories (class X*) on a real NonBlockingSender whose output buffer is queue 0: messages built on '
+        'stacks/queues, SendMessage(IOStack*/IOQueue*), PerformWrite with a scripted writev() result (0, 1, bs-1, bs, bs+1, '
+        'pending-1, pending, pending+1, far more than offered, error), LimitReached with limits 0,1,bs,bs+1,2bs,2bs+1,7,10,1024, '
+        'BigEndianOutputStream/BigEndianInputStream round trips across block boundaries incl. short reads, MemoryBuffer '
+        'read scripts (Read, ReadString, >> past the end); every observable compared after every op; non-trivial = at '
+        'least one byte written and one byte read / peeked / accepted by the descriptor; distinct = distinct model output line')
 ASSUMPTIONS = ['operator new does not fail',
-               'every buffer handed to one operation uses the same MemoryBlockPool; AppendMove is never '
-               'called with the queue itself',
-               'total buffered bytes and allocated blocks stay below 2^32 (unsigned int counters do not wrap)',
-               'pool block size >= 1 (with block size 0 Write(non-empty) never returns; not exercised)']
+               'every buffer handed to one operation uses the same MemoryBlockPool (otherwise: known finding C15-crosspool, '
+               'theorem c15_crosspool_refuted); AppendMove is never called with the queue itself (iterates a deque while pushing to it)',
+               'lengths and counters are unbounded naturals in the block-level model; the only unsigned-int sums that can wrap '
+               '(Size(), hence LimitReached(), and m_blocks_allocated) are treated explicitly: c15_size32 states Size() modulo 2^32 '
+               'with the guard "buffer holds < 2^32 bytes", c15_size32_wraps shows the wrap, and c15_sender_conserves is proved '
+               'with the wrapping Size(); more than 2^32 allocated blocks are not considered',
+               'pool block size >= 1 (with block size 0 Write(non-empty) never returns; not exercised)',
+               'NonBlockingSender: the application never touches the private m_output_buffer; the descriptor stays valid; '
+               'the kernel accepts at most the bytes it was offered (writev/sendmsg contract)']
 TRUSTED = ['modelled rather than verified: MemoryBlock.h (all methods), MemoryBlockPool.h (Allocate, Release, '
            'Purge, FreeBlocks, BlocksAllocated), IOQueue.cpp (Write, Read x2, Peek, Pop, AsIOVec, AppendBlock, '
            'AppendMove, Clear, Size, Empty), IOStack.cpp (Write, Read x2, Pop, AsIOVec, MoveToIOQueue, Size, '
-           'Empty, destructor), BigEndianOutputStream operator<< for 8/16/32-bit values; blocks are held by '
-           'value in the model (pointer aliasing / double ownership is left to ASan on the harness side)']
+           'Empty, destructor), BigEndianOutputStream operator<< and BigEndianInputStream operator>> for 8/16/32-bit values, '
+           'InputStream::Extract/ReadString, MemoryBuffer (both Read overloads), NonBlockingSender (SendMessage x2, PerformWrite, '
+           'LimitReached, AssociateIfRequired) and ConnectedDescriptor::Send(IOQueue*) (writev branch; the sendmsg branch differs '
+           'only in the system call); blocks are held by value in the model (pointer aliasing / double ownership is left to ASan '
+           'on the harness side)',
+           'harness: writev() is interposed at link time (-Wl,--wrap=writev) to script the accepted length; the select server is a mock '
+           'recording Add/RemoveWriteDescriptor']
 
 LEVEL_TEXT = ('Coq theorems over an executable, block-level model of MemoryBlock / MemoryBlockPool / IOQueue / IOStack '
-              '(first/last offsets, byte arrays, deques of blocks, free list): for every block size >= 1, any number '
-              'of queues and stacks on one pool and EVERY operation history, no out-of-block copy / empty-deque access / '
-              'non-terminating write loop occurs and the model is simulated step by step by a byte-list specification '
-              '(queue = FIFO append, stack = prepend, reads and pops take a prefix exactly once, moves concatenate), '
-              'with Size = written - consumed, allocated = free + held, no empty block ever held, free blocks reset, '
-              'and concat(AsIOVec) = content.  The theorems hold for the code WITH fixes 01-03 of props/C15/fixes '
-              '(string reads consume, Release resets, zero-length writes allocate nothing); the model is tied to the '
-              'C++ by a differential correspondence check comparing every observable after every operation.')
+              '(first/last offsets, byte arrays, deques of blocks, free list), NonBlockingSender + ConnectedDescriptor::Send, '
+              'BigEndian streams and MemoryBuffer: for every block size >= 1, any number of queues and stacks on one pool and '
+              'EVERY operation history, no out-of-block copy / empty-deque access / non-terminating write loop occurs and the '
+              'model is simulated step by step by a byte-list specification (queue = FIFO append, stack = prepend, reads and '
+              'pops take a prefix exactly once, moves concatenate), with Size = written - consumed, allocated = free + held, no '
+              'empty block ever held, free blocks reset, concat(AsIOVec) = content; for every message sequence and every script '
+              'of partial / zero / failed writes the bytes the descriptor accepted followed by the pending bytes are exactly the '
+              'accepted messages in order and the descriptor is registered for writing iff bytes are pending; stream write/read '
+              'round trips return the values written for every block size.  Size() modulo 2^32 is stated with an explicit guard. '
+              'Known finding (c15_crosspool_refuted): buffers on different pools break the pool accounting clause. '
+              'The model is tied to the C++ by a differential correspondence check comparing every observable after every operation.')
 LEVEL_NOTE = ('Trusted: Coq kernel, extraction (ExtrOcamlBasic), OCaml/C++ glue, generator coverage of the '
               'correspondence; model = code is validated by differential testing (ASan/UBSan build of the working tree), '
-              'not proved.  Lengths and counters are unbounded naturals in the model (no 2^32 wrap of unsigned int); '
-              'blocks are held by value, so pointer aliasing between deques is left to ASan; operator new never fails; '
-              'all buffers in one history share one pool and AppendMove is never given the queue itself.')
+              'not proved.  Blocks are held by value, so pointer aliasing between deques is left to ASan; operator new never fails; '
+              'all buffers in one history share one pool (the cross-pool case is a listed known finding) and AppendMove is never '
+              'given the queue itself; the kernel side of the descriptor is an input script.')
 TECHNIQUE = 'Coq refinement proof (block-level model vs byte-list spec, induction over histories) + extracted-model/implementation differential correspondence'
 DESIGN_REF = 'DESIGN.md §4 C15'
 
@@ -55,6 +73,7 @@ class Gen(object):
 
     def __init__(self, rng, bs, nq, ns):
         self.rng, self.bs, self.nq, self.ns = rng, bs, nq, ns
+        self.qlo = 0          # 1 in extended mode: queue 0 is the sender's private buffer
         self.q = [0] * nq
         self.s = [0] * ns
         self.ctr = rng.randrange(256)
@@ -80,7 +99,7 @@ class Gen(object):
     def emit(self, kind):
         r = self.rng
         if kind in ('qw', 'qb', 'qr', 'qs', 'qk', 'qp', 'qc'):
-            i = r.randrange(self.nq)
+            i = r.randrange(self.qlo, self.nq)
             if kind == 'qw':
                 n = self.wlen()
                 self.q[i] += n
@@ -101,9 +120,9 @@ class Gen(object):
                 self.ops.append('%s:%d:%d' % (kind, i, n))
             return True
         if kind == 'qm':
-            if self.nq < 2:
+            if self.nq - self.qlo < 2:
                 return False
-            i, j = r.sample(range(self.nq), 2)
+            i, j = r.sample(range(self.qlo, self.nq), 2)
             self.q[i] += self.q[j]
             self.q[j] = 0
             self.ops.append('qm:%d:%d' % (i, j))
@@ -126,7 +145,7 @@ class Gen(object):
             self.s[j] = 0
             self.ops.append('sd:%d' % j)
         elif kind == 'sm':
-            i = r.randrange(self.nq)
+            i = r.randrange(self.qlo, self.nq)
             self.q[i] += self.s[j]
             self.s[j] = 0
             self.ops.append('sm:%d:%d' % (j, i))
@@ -138,6 +157,102 @@ class Gen(object):
 
     def payload(self, label):
         return '%s %d %d %d %s' % (label, self.bs, self.nq, self.ns, ' '.join(self.ops))
+
+
+class XGen(Gen):
+    """extended mode: queue 0 is NonBlockingSender::m_output_buffer"""
+
+    def __init__(self, rng, bs, nq, ns, mx):
+        Gen.__init__(self, rng, bs, nq, ns)
+        self.qlo, self.mx = 1, mx
+
+    def xemit(self, kind):
+        r, bs = self.rng, self.bs
+        if kind == 'xs':
+            j = r.randrange(self.ns)
+            self.ops.append('xs:%d' % j)
+            if self.q[0] < self.mx:
+                self.q[0] += self.s[j]; self.s[j] = 0
+        elif kind == 'xq':
+            i = r.randrange(1, self.nq)
+            self.ops.append('xq:%d' % i)
+            if self.q[0] < self.mx:
+                self.q[0] += self.q[i]; self.q[i] = 0
+        elif kind == 'xw':
+            size = self.q[0]
+            k = max(0, r.choice([0, 1, 1, bs - 1, bs, bs + 1, 2 * bs, size - 1, size, size, size + 1, size // 2,
+                                 size - bs, 3000, r.randrange(0, size + 2)]))
+            self.ops.append('xw:%d' % k)
+            self.q[0] -= min(k, size)
+        elif kind == 'xe':
+            self.ops.append('xe')
+        elif kind == 'xl':
+            self.ops.append('xl')
+        elif kind == 'qi':
+            i = r.randrange(1, self.nq)
+            w = r.choice([1, 2, 4])
+            self.ops.append('qi:%d:%d' % (i, w))
+            self.q[i] -= min(w, self.q[i])
+        elif kind == 'mb':
+            n = r.choice([0, 1, 2, 3, 4, 5, 7, 8, 9, r.randrange(0, 20)])
+            calls = []
+            for _ in range(r.randrange(0, 6)):
+                c = r.choice('rsi')
+                calls.append(c + str(r.choice([1, 2, 4]) if c == 'i' else r.choice([0, 1, 2, n, n + 1, r.randrange(0, n + 2)])))
+            self.ops.append('mb:%s:%s' % (hx(self.data(n)), ','.join(calls)) if calls else 'mb:%s' % hx(self.data(n)))
+        else:
+            return self.emit(kind)
+        return True
+
+    def payload(self, label):
+        return 'X%s %d %d %d %d %s' % (label, self.bs, self.nq, self.ns, self.mx, ' '.join(self.ops))
+
+
+XKINDS = ['sw', 'sw', 'sb', 'qw', 'qw', 'qb', 'xs', 'xs', 'xs', 'xq', 'xq', 'xw', 'xw', 'xw', 'xw', 'xe', 'xl',
+          'qi', 'qi', 'mb', 'sp', 'qr', 'qp', 'qk', 'qs', 'sm', 'qm', 'qc', 'sd', 'pg', 'sr', 'ss']
+
+
+def xcases(rng, count):
+    for _ in range(count):
+        bs = rng.choice([1, 2, 3, 4, 4, 5, 8])
+        fam = rng.choice(['sender', 'sender', 'limit', 'drain', 'stream', 'mixed'])
+        mx = rng.choice([0, 1, bs, 2 * bs + 1, 10, 1024]) if fam != 'limit' else rng.choice([1, bs, bs + 1, 2 * bs, 7])
+        g = XGen(rng, bs, rng.choice([2, 3]), rng.choice([1, 2]), mx)
+        if fam in ('sender', 'limit'):
+            # messages built on stacks / queues, sent, written out in scripted pieces
+            for _ in range(rng.randrange(1, 6)):
+                for _ in range(rng.randrange(0, 3)):
+                    g.xemit(rng.choice(['sw', 'sb', 'qw', 'qb', 'sw']))
+                g.xemit(rng.choice(['xs', 'xs', 'xq', 'xl']))
+                for _ in range(rng.randrange(0, 3)):
+                    g.xemit(rng.choice(['xw', 'xw', 'xe', 'xl']))
+        elif fam == 'drain':
+            for _ in range(rng.randrange(1, 4)):
+                g.xemit('sw'); g.xemit('xs')
+            while g.q[0] > 0 and len(g.ops) < 40:
+                g.xemit(rng.choice(['xw', 'xw', 'xe']))
+            g.xemit('xw'); g.xemit('pg'); g.xemit('sw'); g.xemit('xs'); g.xemit('xw')
+        elif fam == 'stream':
+            # BigEndianOutputStream then BigEndianInputStream on the same queue, around block boundaries
+            for _ in range(rng.randrange(1, 4)):
+                ws = [rng.choice([1, 2, 4]) for _ in range(rng.randrange(1, 5))]
+                for w in ws:
+                    g.q[1] += w
+                    g.ops.append('qb:1:%d:%d' % (w, rng.choice([0, 1, (1 << (8 * w)) - 1, 0x01020304 & ((1 << (8 * w)) - 1),
+                                                                 rng.randrange(1 << (8 * w))])))
+                if rng.random() < 0.3:
+                    rng.shuffle(ws)
+                for w in ws + ([rng.choice([1, 2, 4])] if rng.random() < 0.5 else []):
+                    g.ops.append('qi:1:%d' % w)
+                    g.q[1] -= min(w, g.q[1])
+            g.xemit('mb')
+        else:
+            n = rng.choice([5, 10, 20, 40])
+            tries = 0
+            while len(g.ops) < n and tries < 4 * n:
+                tries += 1
+                g.xemit(rng.choice(XKINDS))
+        yield g.payload('snd-' + fam if fam != 'stream' else 'stream')
 
 
 KINDS = ['qw', 'qw', 'qw', 'qb', 'qr', 'qr', 'qs', 'qs', 'qk', 'qp', 'qc', 'qm', 'pg',
@@ -218,6 +333,8 @@ def gen_cases(rng, tier):
             yield c
     for c in scenarios(rng, 1500 if quick else 40000):
         yield c
+    for c in xcases(rng, 4000 if quick else 100000):
+        yield c
     for _ in range(3000 if quick else 120000):
         bs = rng.choice([1, 2, 3, 4, 5, 6, 7, 8])
         nq = rng.choice([1, 2, 2, 3])
@@ -232,12 +349,16 @@ def gen_cases(rng, tier):
 
 
 def nontrivial(payload, md):
-    toks = payload.split()[4:]
+    ext = payload[0] == 'X'
+    toks = payload.split()[5 if ext else 4:]
     wrote = any(t[:2] in ('qw', 'sw') and not t.endswith(':-') or t[:2] in ('qb', 'sb') for t in toks)
+    if ext and not any(t[:2] == 'mb' for t in toks):
+        # sender / stream histories: bytes written AND bytes that came out (descriptor, read or stream)
+        pass
     got = False
     for k, v in md.items():
         if k[0] == 'o' and k[1:].isdigit():
             r = v.split('/', 1)[0]
-            if r not in ('.', '-'):
+            if r not in ('.', '-', 'T', 'F', 'ERR', 'short'):
                 got = True
     return wrote and got
